@@ -163,14 +163,14 @@ PROPS = {
         assumptions=['valid configuration additionally has T >= 1, Z >= 1, 1 <= N <= T/Al (RFC 4.4.1.2)', 'Verus/Z3 sound'],
         not_decided=['V-CRSYM replaces four std constructs by trusted model functions (rule S4: vec![vec![]; n], `for x in &mut v` + extend_from_slice, drain(..).map(Symbol::new).collect(), chunks(n).map(..).collect()); the bounded Kani unit K-LAYOUT runs the unmodified function on 4 small configurations as a cross-check of those models']),
     'C09': dict(
-        level='proof', units=[('V', 'V-SLAB', 'v_slab'), ('V', 'V-ENCINTO', 'v_encinto'), ('K', 'K-SLABMEM', None)],
+        level='proof', units=[('V', 'V-SLAB', 'v_slab'), ('V', 'V-ENCINTO', 'v_encinto'), ('V', 'V-LIN', 'v_lin'), ('K', 'K-SLABMEM', None)],
         explanation='for all symbol counts and sizes: SymbolSlab::add_assign / mulassign_scalar / fma / set_reorder and perform_op realise apply_op on the logical symbols (whole view: every other symbol unchanged), '
                     'create_d builds the RFC D vector, gen_intermediate_symbols_with_plan == fold of apply_op over the plan; lemma: every op, hence every plan, acts independently on each byte column '
                     '(column(apply_ops(D, ops), j) == apply_ops(column(D, j), ops)), so plans behave identically for every symbol size; every op is additive over symbol-wise xor '
-                    '(lemma_op_additive, using distributivity of the polynomial product proved by bit_vector); enc_into (the encoding symbol generator Enc[]) returns, for every tuple and every symbol size, the symbol-wise xor of the intermediate symbols at the RFC 5.3.5.3 index walk (V-ENCINTO), hence is linear in the intermediate symbols. Bounded Kani stand-in K-SLABMEM runs the real slab ops (raw-pointer borrow, real kernels) on 3 symbols of 1..16 bytes',
+                    '(lemma_op_additive, using distributivity of the polynomial product proved by bit_vector); enc_into (the encoding symbol generator Enc[]) returns, for every tuple and every symbol size, the symbol-wise xor of the intermediate symbols at the RFC 5.3.5.3 index walk (V-ENCINTO), hence is linear in the intermediate symbols; scalar homogeneity (V-LIN): the shift-and-xor product of the contracts is commutative and satisfies a*xtime(b) == xtime(a*b) (two 16-bit bit_vector facts), hence s*(k*x) == k*(s*x) and associativity by algebra; every op, every plan, the D vector and Enc commute with multiplication by a constant (lemma_encoding_homogeneous: scaled source symbols give scaled encoding symbols). Bounded Kani stand-in K-SLABMEM runs the real slab ops (raw-pointer borrow, real kernels) on 3 symbols of 1..16 bytes',
         assumptions=['kernel contracts (element-wise) assumed in V-SLAB: checked bounded by K-KERN (C11)', 'rule U2 / S3 models of from_raw_parts and &mut vec[a..b]', 'the solver\'s op list is data independent (syntactic: phases never read D)',
                      'V-ENCINTO: contracts of SymbolSlab::get (proved in V-SLAB), octets::add_assign (K-KERN) and the three table look-ups (V-TAB) assumed; termination of the `while b1 >= P` walk not proved in Verus (partial correctness)'],
-        not_decided=['scalar homogeneity (needs associativity/commutativity of the field product) is not machine-checked']),
+        not_decided=['the decoding direction (decoder output is linear in the received packets) is not stated separately: the decoder replays the same op interpreter (perform_op) whose linearity is proved']),
     'C06': dict(
         level='proof', units=[('V', 'V-SLAB', 'v_slab'), ('V', 'V-SBENEW', 'v_sbenew'), ('V', 'V-TAB', 'v_tab'), ('K', 'K-TAB', None)],
         explanation='decided part only: plan replay applies exactly the op list with the slab interpreter (gen_intermediate_symbols_with_plan == apply_ops over the D vector), the final Reorder is the only '
@@ -211,10 +211,10 @@ PROPS = {
                      'a bounded Kani comparison against the dense matrix (K-SPARSE in /verif/hooks/lib_hooks.rs) did not finish within 30 min even with 3 symbolic cells and is not run',
                      'DenseBinaryMatrix::count_ones, get_row_iter (+ OctetIter), get_sub_row_as_octets', 'therefore the equivalence of the two implementations is decided for the dense matrix and the dense tail of the sparse one only']),
     'C10': dict(
-        level='proof', units=[('K', 'K-GF', None)],
-        explanation='all harnesses loop-free over full u8 domains (spec loop of 8 steps fully unwound with unwinding assertions): complete',
+        level='proof', units=[('K', 'K-GF', None), ('V', 'V-LIN', 'v_lin')],
+        explanation='all harnesses loop-free over full u8 domains (spec loop of 8 steps fully unwound with unwinding assertions): complete; field laws of the polynomial product (commutative, associative, distributive, a*0 == 0) proved in Verus for all operands (V-LIN; distributivity in V-SLAB), hence for the real product by the K-GF equality',
         assumptions=['oracle: GF(2^8) modulo x^8+x^4+x^3+x^2+1 written as shift-and-xor (/verif/spec/gf.rs)', 'CBMC/cadical sound'],
-        not_decided=['associativity/distributivity on the real operators as a separate harness did not finish in 10 min; they follow from equality with the polynomial product']),
+        not_decided=['the Verus spec product gf_mul (8 shift-and-xor steps) and the executable oracle /verif/spec/gf.rs are the same algorithm written twice (Verus spec language / Rust): their agreement is by inspection']),
 }
 
 NOT_APPLICABLE = {
